@@ -19,11 +19,12 @@ import Driver.Compile
 import Driver.Topic
 import Driver.NatsServer
 import Driver.Determinism
+import Driver.PubSub
 
 open Driver
 
 def steppers : List (String → List String → Option String) :=
-  [stepHeaders, stepRegistry, stepThrift, stepRpc, stepOutBuf, stepProcessor, stepContext, stepContextHeap, stepMiddleware, stepAdapter, stepAudit, stepPeg, stepNatsServer, stepTopic, stepDeterminism, stepCompile]
+  [stepHeaders, stepRegistry, stepThrift, stepRpc, stepOutBuf, stepProcessor, stepContext, stepContextHeap, stepMiddleware, stepAdapter, stepAudit, stepPeg, stepNatsServer, stepTopic, stepDeterminism, stepCompile, stepPubSub]
 
 def step (line : String) : String :=
   match (line.splitOn " ").filter (· ≠ "") with
